@@ -19,6 +19,7 @@ SurveyK = Obj("Survey", name=str, _xpath=Opt[XPathMap], attribute=Opt[StrMap], i
               submission_url=Opt[str], public_key=Opt[str], auto_send=Opt[str], auto_delete=Opt[str],
               entity_features=Opt[List[str]], namespaces=Opt[str], default_language=str,
               _translations=Dict[str, LangT], setvalues_by_triggering_ref=Dict[str, TrigL],
+              children=List[Elem], instance=Opt[StrMap],
               type=str, bind=Opt[Dict[str, BindVal]], flat=Opt[bool], trigger=Opt[str], default=Opt[str],
               label=Opt[LabelVal], hint=Opt[LabelVal], guidance_hint=Opt[LabelVal], media=Opt[Dict[str, LabelVal]])
 
@@ -84,24 +85,23 @@ def _(self: SurveyX) -> None:
 
 # ---------------------------------------------------------------- primary instance root (C11, C01)
 
+SectionK = Obj("Section", name=str, children=List[Elem], instance=Opt[Dict[str, str]])
+S2 = Obj("SurveyS2", name=str)
+
+
 @spec
-def SectionInstance(s: SurveyK) -> XNode:
-    """The instance subtree Section.xml_instance builds for the survey root (family contract InstShape)."""
+def SectionInstance(s: SectionK, survey: S2) -> XNode:
+    """The instance subtree Section.xml_instance builds for the survey root (proved in contracts/section.py: InstShape)."""
     uninterpreted()
-
-
-@contract("Section.xml_instance", module="pyxform.section")
-def _(self: SurveyK, survey: SurveyK, **kwargs: StrMap) -> XNode:
-    trusted("family contract of xml_instance (InstShape): as called for the survey root; children shapes are the C02/C04 kernels")
-    ensures(result == SectionInstance(self))
-    ensures(result.nodeType == 1 and result.tagName == self.name)
 
 
 @contract("Survey.xml_instance")
 def _(self: SurveyK, **kwargs: StrMap) -> XNode:
     properties("C11", "C01")
     no_native("needs survey-element objects: exercised through the e2e oracles")
-    inst = SectionInstance(self)
+    kwargs_shapes({})          # xml_model calls it without keywords
+    may_raise(PyXFormError, when=True)
+    inst = SectionInstance(self, self)
     A = some(self.attribute)
     # the root element keeps the name and children of the section instance
     ensures(result.nodeType == 1 and result.tagName == self.name and result.kids == inst.kids)
